@@ -63,6 +63,12 @@ func c04(r *Report) {
 		r.Gate(Gate{ID: "C04.install.no-auth-only-if-unconfigured", Fn: apply, Effect: ConstNilReturn(), Check: CmpCheck("config.Type == \"\"", token.EQL, typ, StrV(""), true), Alt: []Check{isTok}})
 	}
 	r.Gate(Gate{ID: "C04.install.configure-fails-if-auth-fails", Fn: p.Func(h, "Engine", "Configure"), Effect: SuccessReturn(), Check: ErrCheck(Fn(h, "Engine", "applyAuthMiddleware"))})
+	mp := p.Func(h, "", "matchesPath")
+	r.Gate(Gate{ID: "C04.guard.matchesPath.prefix-or-root", Fn: mp, Effect: ReturnsBool(0, true), Check: CallCheck(Fn("std:strings", "", "HasPrefix"), -1, IsTrue),
+		Alt: []Check{CmpCheck("path == \"/\"", token.EQL, ParamV("path"), StrV("/"), true), CmpCheck("requestURI == path", token.EQL, c04FromParam("requestURI"), c04FromParam("path"), true)}})
+	r.ArgIs("C04.guard.matchesPath.prefix-of-request", mp, Fn("std:strings", "", "HasPrefix"), 0, c04FromParam("requestURI"), 1)
+	r.ArgIs("C04.guard.matchesPath.prefix-is-path", mp, Fn("std:strings", "", "HasPrefix"), 1, c04FromParam("path"), 1)
+	c04Dispatcher(r)
 	// positive control for the zero-count detector
 	c04Fixture(r)
 
@@ -428,4 +434,107 @@ func c04Routes(r *Report) {
 	if bad == 0 {
 		r.OK("C04.routes", rule, "", fmt.Sprintf("%d routes, %d under internal segments", n, internal), true)
 	}
+}
+
+// c04FromParam: the named string parameter, possibly with a constant appended, possibly selected by a phi.
+func c04FromParam(name string) VPat {
+	var rec func(v ssa.Value, d int) bool
+	rec = func(v ssa.Value, d int) bool {
+		if d > 6 {
+			return false
+		}
+		v = StripConv(v)
+		if ParamV(name).M(v) {
+			return true
+		}
+		switch x := v.(type) {
+		case *ssa.Phi:
+			for _, e := range x.Edges {
+				if !rec(e, d+1) {
+					return false
+				}
+			}
+			return len(x.Edges) > 0
+		case *ssa.BinOp:
+			if x.Op == token.ADD {
+				if _, isC := x.Y.(*ssa.Const); isC {
+					return rec(x.X, d+1)
+				}
+			}
+		}
+		return false
+	}
+	return VPat{Desc: "parameter " + name + " (optionally with a constant suffix)", M: func(v ssa.Value) bool { return rec(v, 0) }}
+}
+
+// c04Dispatcher: MultiEcho hands a route to the listener bound to the route's first path segment; the root (public)
+// listener is used only when no bind exists for that segment.
+func c04Dispatcher(r *Report) {
+	p := r.P
+	rule := "ARG: MultiEcho's route dispatcher registers a route on interfaces[binds[getBindFromPath(path)]], and on the root listener only when that bind is empty"
+	key := "C04.dispatch.route-to-bound-listener"
+	nm := p.Func("http", "", "NewMultiEcho")
+	if nm == nil || len(nm.AnonFuncs) == 0 {
+		r.Lost(key, rule, "NewMultiEcho / its addFn closure not found")
+		return
+	}
+	var cl *ssa.Function
+	for _, a := range nm.AnonFuncs {
+		if len(Calls(a, p.FnOrImpl("core", "EchoRouter", "Add"))) > 0 || len(Calls(a, Callee{Desc: "Add", M: func(cc *ssa.CallCommon) bool { return cc.IsInvoke() && cc.Method.Name() == "Add" }})) > 0 {
+			cl = a
+		}
+	}
+	if cl == nil {
+		r.Lost(key, rule, "addFn closure not found")
+		return
+	}
+	var bindLk, ifaceLk, rootBindLk, rootIfaceLk *ssa.Lookup
+	for _, b := range cl.Blocks {
+		for _, in := range b.Instrs {
+			lk, ok := in.(*ssa.Lookup)
+			if !ok {
+				continue
+			}
+			switch {
+			case FieldV("MultiEcho", "binds").M(lk.X) && CallV(Fn("http", "MultiEcho", "getBindFromPath"), -1).M(lk.Index):
+				bindLk = lk
+			case FieldV("MultiEcho", "binds").M(lk.X):
+				if s, ok := ConstString(lk.Index); ok && s == "/" {
+					rootBindLk = lk
+				}
+			case FieldV("MultiEcho", "interfaces").M(lk.X):
+				if bindLk != nil && lk.Index == ssa.Value(bindLk) {
+					ifaceLk = lk
+				} else if rootBindLk != nil && lk.Index == ssa.Value(rootBindLk) {
+					rootIfaceLk = lk
+				} else {
+					r.Bad(key, rule, p.Pos(lk.Pos()), "listener looked up under "+AccessPath(lk.Index, 0))
+					return
+				}
+			}
+		}
+	}
+	r.Sites += 4
+	if bindLk == nil || ifaceLk == nil || rootBindLk == nil || rootIfaceLk == nil {
+		r.Bad(key, rule, p.Pos(cl.Pos()), fmt.Sprintf("expected lookups not all found (bind=%v listener=%v rootBind=%v rootListener=%v)", bindLk != nil, ifaceLk != nil, rootBindLk != nil, rootIfaceLk != nil))
+		return
+	}
+	// getBindFromPath is applied to the route's path parameter
+	gb := StripConv(bindLk.Index).(*ssa.Call)
+	if !ParamV("path").M(CallArg(gb.Common(), 0)) {
+		r.Bad(key, rule, p.Pos(gb.Pos()), "the bind is derived from "+AccessPath(CallArg(gb.Common(), 0), 0)+", not from the route's path")
+		return
+	}
+	// the receiver of Add is a phi of exactly the two listener lookups
+	for _, c := range Calls(cl, Callee{Desc: "Add", M: func(cc *ssa.CallCommon) bool { return cc.IsInvoke() && cc.Method.Name() == "Add" }}) {
+		phi, ok := c.Common().Value.(*ssa.Phi)
+		if !ok || len(phi.Edges) != 2 || !(phi.Edges[0] == ssa.Value(ifaceLk) && phi.Edges[1] == ssa.Value(rootIfaceLk) || phi.Edges[1] == ssa.Value(ifaceLk) && phi.Edges[0] == ssa.Value(rootIfaceLk)) {
+			r.Bad(key, rule, p.Pos(c.Pos()), "the route is added to "+AccessPath(c.Common().Value, 0))
+			return
+		}
+	}
+	r.OK(key, rule, p.Pos(cl.Pos()), "bound listener by first path segment; root listener is the fallback", true)
+	// the root fallback only when the bind is empty
+	r.Gate(Gate{ID: "C04.dispatch.root-only-when-unbound", Fn: cl, Effect: InstrEffect("use the root (public) listener", func(in ssa.Instruction) bool { return in == ssa.Instruction(rootIfaceLk) }),
+		Check: CmpCheck("bindAddress != \"\" is false", token.EQL, VPat{Desc: "binds[getBindFromPath(path)]", M: func(v ssa.Value) bool { return v == ssa.Value(bindLk) }}, StrV(""), true)})
 }
